@@ -21,7 +21,7 @@ def ensure_wt():
 def build_demo(src, out):
     inc = "-I%s/include -I%s/_build/include -I%s -I%s/compat" % (WT, WT, WT, WT)
     cc = "g++ -std=c++17" if src.endswith((".cc", ".cpp")) else "cc"
-    r = sh("%s -O0 -g -w %s -o %s %s %s/_build/lib/libevent.a -lpthread" % (cc, inc, out, src, WT))
+    r = sh("%s -O0 -g -w %s -o %s %s %s/_build/lib/libevent.a %s/_build/lib/libevent_pthreads.a -lpthread" % (cc, inc, out, src, WT, WT))
     return r
 
 def run_demo(out):
